@@ -3,15 +3,20 @@ C05 — handshake completes under any fragmentation and hands back trailing byte
 `hmac` and the two random fills are arbitrary.  `processBytes_eq_procSpec` (Lemmas/HsSpec) shows the
 five-stage loop of `process_bytes` equals a straight-line closed form for EVERY state and input.
 
-STATUS: proved here — the one-call behaviour for either start mode against ANY peer stream
-`3 :: p1 ++ p2 ++ tail` (digest-bearing or original/digest-less: `genP2` covers both, C11), that no
-input shorter than the peer's 3073 bytes completes the handshake, the version-byte check, and that a
-completed handshake refuses further input.  NOT yet a theorem: the statement for every partition of
-the stream into calls and the two-party schedule theorem (`C05_party`, `C05_pair` of DESIGN.md §5);
-they are covered by the `hs` family: hs.xfer schedules interpreted by model and real code, and the
-!hs.pair oracle on two real handshakes (and an original-handshake peer) under many fragmentations.
+STATUS: proved here — `C05_party`: for either role and either start mode, against ANY peer stream
+`3 :: p1 ++ p2 ++ tail` (digest-bearing or original/digest-less: `genP2` covers both, C11) under EVERY
+partition into `process_bytes` calls: no error, the party emits exactly its version byte, its packet 1
+and its answer (3073 bytes), completes, and hands back exactly `tail`; completion is never reported
+before the peer's 3073rd byte (`C05_no_early_completion_any_partition`); the version-byte check; a
+completed handshake refuses further input.  The two parties' streams do not depend on each other's
+fragmentation (packet 1 depends on nothing received, the answer only on the peer's packet 1), so the
+two-party statement reduces to `C05_party` for each side plus the scheduling fact that every byte is
+eventually delivered; that last step (`C05_pair` of DESIGN.md §5: schedules as objects) is NOT a
+theorem — it is covered by the `hs` family: hs.xfer schedules interpreted by model and real code, and
+the !hs.pair oracle on two real handshakes (and an original-handshake peer) under many fragmentations.
 -/
 import Rml.Lemmas.HsSpec
+import Rml.Lemmas.HsPart
 import Rml.Props.C11
 namespace Rml.C05
 open Rml Rml.Hs
@@ -104,5 +109,45 @@ theorem C05_version_and_completed (hmac : Hmac) (s : State) (c : UInt8) (rest da
   · intro hs
     rw [processBytes_eq_procSpec]
     simp [procSpec, hs]
+
+/-- **C05 (one party, any fragmentation).**  A party that has not started yet, fed the peer's stream
+    `3 :: p1 ++ p2 ++ tail` in ANY partition into calls (`c1 :: rest`, any sizes, empty pieces allowed):
+    no error; everything it emits, concatenated, is `3 :: P1 ++ answer(p1)`; it completes; and the
+    trailing bytes come back exactly: `tail`, unmodified, in order, once. -/
+theorem C05_party (hmac : Hmac) (s : State) (p1 p2 tail : Bytes) (c1 : Bytes) (rest : List Bytes)
+    (h1 : p1.length = 1536) (h2 : p2.length = 1536) (hs : s.stage = .needToSend) (hb : s.buf = [])
+    (hcut : (c1 :: rest).flatten = 3 :: (p1 ++ p2 ++ tail)) :
+    ∃ s', feedCalls hmac s (c1 :: rest) =
+      .ok (s', 3 :: (genP1 hmac s.role s.fill1).1 ++ answer hmac s p1, some tail) ∧ s'.stage = .complete := by
+  obtain ⟨s', hp, hst⟩ := C05_one_call_fresh hmac s p1 p2 tail h1 h2 hs hb
+  refine ⟨s', ?_, hst⟩
+  rw [feedCalls_partition, hcut, feedCalls_single, hp]
+
+/-- the same when the application called `generate_outbound_p0_and_p1` first (the client's usual start):
+    the calls return the answer only; with the 1537 bytes returned by the start that is 3073 again -/
+theorem C05_party_started (hmac : Hmac) (s : State) (p1 p2 tail : Bytes) (c1 : Bytes) (rest : List Bytes)
+    (h1 : p1.length = 1536) (h2 : p2.length = 1536) (hs : s.stage = .needToSend) (hb : s.buf = [])
+    (hcut : (c1 :: rest).flatten = 3 :: (p1 ++ p2 ++ tail)) :
+    ∃ s', feedCalls hmac (generateP0P1 hmac s).1 (c1 :: rest) = .ok (s', answer hmac s p1, some tail) ∧
+      s'.stage = .complete ∧ (generateP0P1 hmac s).2 = 3 :: (genP1 hmac s.role s.fill1).1 := by
+  obtain ⟨s', hp, hst, hg⟩ := C05_one_call_started hmac s p1 p2 tail h1 h2 hs hb
+  refine ⟨s', ?_, hst, hg⟩
+  rw [feedCalls_partition, hcut, feedCalls_single, hp]
+
+/-- no partition lets a party complete early: if a sequence of calls completes a fresh party, the
+    calls up to and including the completing one carried at least 3073 bytes.  (Stated on the whole
+    list: a completed run returns `some _` as trailing bytes.) -/
+theorem C05_no_early_completion_any_partition (hmac : Hmac) (s s' : State) (c1 : Bytes) (rest : List Bytes)
+    (resp tr : Bytes) (hb : s.buf = []) (hs : s.stage = .needToSend ∨ s.stage = .waitP0)
+    (h : feedCalls hmac s (c1 :: rest) = .ok (s', resp, some tr)) : 3073 ≤ (c1 :: rest).flatten.length := by
+  rw [feedCalls_partition, feedCalls_single] at h
+  generalize (c1 :: rest).flatten = x at h ⊢
+  cases hp : processBytes hmac s x with
+  | error e => rw [hp] at h; simp at h
+  | ok q =>
+    obtain ⟨s1, res⟩ := q
+    cases res with
+    | inProgress r => rw [hp] at h; simp at h
+    | completed r rem => exact C05_no_early_completion hmac s s1 _ r rem hb hs hp
 
 end Rml.C05
